@@ -8,6 +8,7 @@ import (
 
 	wio "github.com/whatap/golib/io"
 	"github.com/whatap/golib/lang/value"
+	"github.com/whatap/golib/util/hash"
 	"pgregory.net/rapid"
 	"verif/gen"
 	"verif/gval"
@@ -200,8 +201,45 @@ func mutate(t *rapid.T, v *ref.V, depth int) *ref.V {
 	return c
 }
 
+// counterpart returns the value of ANOTHER type that stands for the same thing as base, if there is one: the text a
+// hash value is the hash of / the hash of a text, the number of another integer width. nil: none.
+func counterpart(base *ref.V) *ref.V {
+	switch base.T {
+	case ref.TText:
+		return &ref.V{T: ref.TTextHash, I: int64(hash.HashStr(string(gen.UnHex(base.S))))}
+	case ref.TDecimal:
+		if base.I == int64(int32(base.I)) {
+			return &ref.V{T: ref.TInt, I: base.I}
+		}
+		return &ref.V{T: ref.TLong, I: base.I}
+	case ref.TInt, ref.TLong:
+		return &ref.V{T: ref.TDecimal, I: base.I}
+	case ref.TList:
+		// element-wise
+		out := &ref.V{T: ref.TList}
+		any := false
+		for _, e := range base.L {
+			if cp := counterpart(e); cp != nil {
+				out.L = append(out.L, cp)
+				any = true
+			} else {
+				out.L = append(out.L, ref.Clone(e))
+			}
+		}
+		if any {
+			return out
+		}
+	}
+	return nil
+}
+
 func drawRelated(t *rapid.T, base *ref.V, label string) *ref.V {
-	switch rapid.IntRange(0, 9).Draw(t, label) {
+	switch rapid.IntRange(0, 10).Draw(t, label) {
+	case 10:
+		if cp := counterpart(base); cp != nil {
+			return cp
+		}
+		return mutate(t, base, 0)
 	case 0:
 		return ref.Clone(base)
 	case 1, 2, 3, 4:
